@@ -58,8 +58,23 @@ func VfC08_ParseLocals() {
 	vfAssert("C08.parse.numbers", vfAnd(vfAnd(f.Params[0].ID() == 0, f.Params[1].ID() == 1), vfAnd(vfAnd(b0.ID() == 2, add.ID() == 3), vfAnd(vfAnd(call.ID() == 4, b1.ID() == 5), mul.ID() == 6))))
 }
 
+// hUnnamedEntity: the text of an unnamed top-level entity of kind k (global
+// variable, function, alias, ifunc) written with the number id; @t and @res
+// are defined by the caller.
+func hUnnamedEntity(k int, id string) string {
+	switch k {
+	case 0:
+		return id + " = global i32 0\n"
+	case 1:
+		return "define void " + id + "() {\n\tret void\n}\n"
+	case 2:
+		return id + " = alias i32, i32* @t\n"
+	}
+	return id + " = ifunc void (), void ()* ()* @res\n"
+}
+
 // VfC08_ParseGlobals: up to three unnamed top-level entities (global
-// variable, function, alias) in every textual order, numbered @0,@1,... in
+// variable, function, alias, ifunc) in every textual order, numbered @0,@1,... in
 // textual order as LLVM requires: the parser accepts them and the module can
 // be printed.
 //
@@ -70,17 +85,10 @@ func VfC08_ParseGlobals() {
 	src := ""
 	var kinds []int
 	for i := 0; i < n; i++ {
-		k := vfChoice("kind"+string(rune('0'+i)), 3)
+		k := vfChoice("kind"+string(rune('0'+i)), 4)
 		kinds = append(kinds, k)
 		id := "@" + string(rune('0'+i))
-		switch k {
-		case 0:
-			src += id + " = global i32 0\n"
-		case 1:
-			src += "define void " + id + "() {\n\tret void\n}\n"
-		default:
-			src += id + " = alias i32, i32* @t\n"
-		}
+		src += hUnnamedEntity(k, id)
 		// other numbered top-level definitions (attribute groups, metadata) may
 		// stand anywhere between the globals; their numbers are unrelated
 		switch vfChoice("between"+string(rune('0'+i)), 3) {
@@ -90,7 +98,7 @@ func VfC08_ParseGlobals() {
 			src += "!" + string(rune('3'+i)) + " = !{}\n"
 		}
 	}
-	src += "@t = global i32 7\n@user = global i32* @0\n"
+	src += "@t = global i32 7\n@user = global i32* @0\ndeclare void ()* @res()\n"
 	// known finding: the printer numbers by group (globals, aliases, ifuncs,
 	// functions), the parser by textual order
 	sorted := true
@@ -100,8 +108,10 @@ func VfC08_ParseGlobals() {
 			return 0
 		case 2:
 			return 1
+		case 3:
+			return 2
 		}
-		return 2
+		return 3
 	}
 	for i := 1; i < len(kinds); i++ {
 		if rank(kinds[i-1]) > rank(kinds[i]) {
